@@ -1,5 +1,5 @@
 from . import common as C
-from . import pair
+from . import paged, pair
 
 
 def run(tier: str, seed: int) -> int:
@@ -8,6 +8,7 @@ def run(tier: str, seed: int) -> int:
     wd = C.workdir("C11")
     try:
         pair.run_pair(rep, wd, tier, seed)
+        paged.run_paged(rep, wd, tier, seed)
         rep.rule = ("one case per transition of the Pair.tla state graph (client call, server call, partial drain, partial delivery, drop) executed on a real "
                     "client+server pair; distinct by (abstract source state, step label); plus seeded random walks")
         rep.assumptions = ["applications make only calls their session accepts and answer with responses of the matching kind (the property's precondition)",
